@@ -40,6 +40,10 @@ impl Model for M<'_> {
         for b in w.branches.drain(..) {
             self.r.counters.add(&format!("branch {b}"), 1);
         }
+        for (key, text) in w.findings.drain(..) {
+            let hist: Vec<String> = w.applied.iter().map(|e| e.to_text()).collect();
+            self.r.violation(&key, &format!("[{}] history {:?}: {}", self.cfg.name(), hist, text), case_json(&self.cfg, &w.applied));
+        }
         res
     }
     fn canon(&self, w: &World) -> Vec<u8> {
@@ -68,6 +72,10 @@ fn replay(r: &Report, case: &serde_json::Value) {
         }
     }
     w.print_story();
+    for (key, text) in w.findings.drain(..) {
+        println!("finding: [{key}] {text}");
+        r.violation(&key, &text, case.clone());
+    }
     if let Some((i, v)) = bad {
         println!("oracle after event {} ({}): [{}] {}", i + 1, events[i].to_text(), v.key, v.text);
         r.violation(&v.key, &v.text, case.clone());
@@ -86,23 +94,30 @@ fn main() {
     let depth_override: Option<usize> = r.args.extra_value("--depth").and_then(|s| s.parse().ok());
     let jobs = r.args.jobs.min(16);
 
-    // (cfg, depth). Quick: depth 4 on one node for every {ext, cached, late}; two nodes at depth 3.
+    // (cfg, depth). Quick: depth 4 on one node, depth 3 on two nodes (core alphabet there); with the extension the driver
+    // ignores use_cached_result_metadata, so that duplicate configuration runs one level shallower in the quick tier.
+    // Thorough: depth 6 / full alphabet on one node, depth 5 on two nodes.
     let mut runs: Vec<(Cfg, usize)> = Vec::new();
     for late in [false, true] {
         for ext in [true, false] {
             for cached in [false, true] {
                 for nodes in [1usize, 2] {
-                    let (depth, alpha) = if thorough { (if nodes == 1 { 6 } else { 5 }, if nodes == 1 { 2 } else { 1 }) } else if nodes == 1 { (4, 1) } else { (3, 0) };
+                    let (mut depth, alpha) = if thorough { (if nodes == 1 { 6 } else { 5 }, if nodes == 1 { 2 } else { 1 }) } else if nodes == 1 { (4, 1) } else { (3, 0) };
+                    if !thorough && ext && cached {
+                        depth -= 1;
+                    }
                     runs.push((Cfg { ext, cached, nodes, late, alpha }, depth));
                 }
             }
         }
     }
+    // cheap configurations first, so that a wall cap (reported, never silent) can only cut the tail
+    runs.sort_by_key(|(c, _)| c.nodes);
     if let Some(o) = &only {
         runs.retain(|(c, _)| c.name().starts_with(o.as_str()));
     }
     let t0 = Instant::now();
-    let wall_cap = Duration::from_secs(r.args.extra_value("--wall").and_then(|s| s.parse().ok()).unwrap_or(if thorough { 900 } else { 55 }));
+    let wall_cap = Duration::from_secs(r.args.extra_value("--wall").and_then(|s| s.parse().ok()).unwrap_or(if thorough { 900 } else { 50 }));
     let mut per_cfg = Vec::new();
     let mut all_complete = true;
     for (cfg, depth) in runs {
@@ -145,6 +160,17 @@ fn main() {
             let hist: Vec<String> = v.history.iter().map(|e| e.to_text()).collect();
             r.violation(&key, &format!("[{}] history {:?}: {}", cfg.name(), hist, text), case_json(&cfg, &v.history));
         }
+    }
+    // E-BFS audit (thorough): the same space explored with 3 and with all worker threads must give identical counts
+    if thorough && only.is_none() {
+        let cfg = Cfg { ext: true, cached: false, nodes: 1, late: true, alpha: 2 };
+        let m = M { cfg, max_version: 4, r: &r };
+        let a = bfs(&m, &BfsOpts { max_depth: 4, max_states: 2_000_000, wall: Duration::from_secs(600), jobs: 3, max_violations: 1 });
+        let b = bfs(&m, &BfsOpts { max_depth: 4, max_states: 2_000_000, wall: Duration::from_secs(600), jobs, max_violations: 1 });
+        if (a.states, a.transitions, &a.states_per_depth) != (b.states, b.transitions, &b.states_per_depth) {
+            vcore::machinery_error(&format!("E-BFS audit: counts differ between 3 and {jobs} threads: {:?} vs {:?}", a.states_per_depth, b.states_per_depth));
+        }
+        r.note("thread_count_audit", json!({"cfg": cfg.name(), "depth": 4, "jobs": [3, jobs], "states": a.states, "transitions": a.transitions}));
     }
     r.nontrivial(r.counters.get("branch unprepared") + r.counters.get("branch batch:unprepared"));
     r.set_rule("event executions in which the node answered UNPREPARED and the driver had to re-prepare (select + batch), counted over all replays; `branch *` counters show how often each oracle branch was taken");
